@@ -261,7 +261,21 @@ def run(ctx):
                      'sum by Circ.marg / C01_normalised; the implementation side is enumerated when the discrete domain is small')
 
 
+_run_core = run
+
+
+def run(ctx):
+    _run_core(ctx)
+    if ctx.n_new() == 0 and ctx.driver_ok:
+        from harness.common import run_demo
+        run_demo(ctx, 'demo_tr3.py', [1 + ctx.seed], 'c01-code-vs-generated-vs-model',
+                 'inference / leaf likelihood code vs generated definitions vs model', env_extra=dict(DEMO_SECTIONS='a'))
+
+
 def replay(rep):
+    if rep['replay'].get('kind') == 'demo':
+        from harness.common import replay_demo
+        return replay_demo(rep['replay'])
     r = rep['replay']
     root, order = build_from_table(r['table'])
     X = np.array(r['rows'], dtype=np.float32)
